@@ -118,17 +118,27 @@ def loadtxt(
             import bz2
 
             opener = bz2.open
+        elif name.endswith((".xz", ".lzma")):
+            import lzma
+
+            opener = lzma.open
         else:
             opener = open
-        with opener(fname, "rt") as src:
+        text_encoding = None if encoding in (None, "bytes") else encoding
+        with opener(fname, "rt", encoding=text_encoding) as src:
             header = src.readline()
-    else:
+    elif hasattr(fname, "tell") and hasattr(fname, "seek"):
         # peek at the first line only: without a numpoly header it is data
         position = fname.tell()
         header = fname.readline()
         fname.seek(position)
+    else:
+        # an iterable of lines (list, generator): taken in, to be read twice
+        fname = list(fname)
+        header = fname[0] if fname else ""
     if isinstance(header, bytes):
-        header = header.decode("utf-8")
+        # byte streams are written as latin1 by numpy.savetxt
+        header = header.decode(encoding if encoding not in (None, "bytes") else "latin1")
 
     array = numpy.loadtxt(
         fname,
